@@ -131,7 +131,22 @@ func (g *mg) defmacro(idx int) gen.Val {
 		body = append(body, gen.Call("probe", gen.I(int64(g.probe)), gen.QS("expanding")))
 	}
 	tmpl := g.template(params, rest, g.n(1, 3, "tdepth"))
-	switch g.n(0, 9, "bodykind") {
+	switch g.n(0, 10, "bodykind") {
+	case 10:
+		// a code-walking macro: while expanding, it asks for the expansion of a
+		// call to ITSELF on the remaining arguments (the macro is re-entered
+		// before its own parameters are used), like a hand-written `and`
+		g.stat("self-expanding")
+		sig.req, sig.opt, sig.rest = 1, 0, true
+		fs = []gen.Val{gen.S("a0"), gen.S("&rest"), gen.S("r")}
+		which := "macroexpand"
+		if g.pct(50, "me1") {
+			which = "macroexpand-1"
+		}
+		body = append(body, gen.L(gen.S("if"), gen.Call("nil?", gen.S("r")),
+			gen.L(gen.S("quasiquote"), gen.L(gen.S("+"), gen.I(0), unq(gen.S("a0")))),
+			gen.L(gen.S("let"), gen.L(gen.L(gen.S("inner"), gen.Call(which, gen.Call("cons", gen.QS(sig.name), gen.S("r"))))),
+				gen.L(gen.S("quasiquote"), gen.L(gen.S("+"), unq(gen.S("a0")), unq(gen.S("inner")), unq(gen.S("a0")))))))
 	case 0:
 		// expands to a definition
 		g.stat("expands-to-definition")
@@ -488,7 +503,7 @@ func (g *qg) spliced() gen.Val {
 }
 
 func (g *qg) item(depth int) gen.Val {
-	k := g.n(0, 13, "item")
+	k := g.n(0, 14, "item")
 	if depth <= 0 && k >= 8 {
 		k = k % 8
 	}
@@ -508,6 +523,11 @@ func (g *qg) item(depth int) gen.Val {
 		v = splice(g.spliced())
 	case 7:
 		v = gen.L()
+	case 14:
+		// a template inside the template (a macro-writing macro): it is
+		// ordinary list structure, unquotes below it are still instantiated
+		g.stats["nested-quasiquote"]++
+		v = gen.L(gen.S("quasiquote"), g.item(depth-1))
 	case 8:
 		// wrong arity forms
 		g.stats["bad-unquote-arity"]++
